@@ -18,6 +18,13 @@ static bool to_units_d(const GraphSpec &s, double v, ll &u) { double x = std::ld
 static GraphSpec gen_sched_graph(Rng &r, int max_n) {
     GenOpts o; o.max_n = max_n; o.tie_bias = 0.55; o.allow_degenerate = true;
     GraphSpec s;
+    if (r.chance(0.2)) { // dense core (the all-vertices branch |S_k| >= n runs) plus pendant / isolated vertices at random indices
+        Topo t; int core = (int) r.range(6, 12); topo_er(r, t, core, 0.6 + 0.4 * r.real()); int n = core; int extra = (int) r.range(1, 3);
+        for (int q = 0; q < extra; q++) { if (r.chance(0.7)) add_e(t, (int) r.below(core), n); n++; }
+        dedup(t); std::vector<int> perm(n); std::iota(perm.begin(), perm.end(), 0); r.shuffle(perm);
+        s.n = n; for (auto &e : t) s.edges.push_back({perm[e.first], perm[e.second], 1}); r.shuffle(s.edges); s.family = "dense_core_low_degree"; assign_weights(r, s, o, false);
+        return s;
+    }
     if (r.chance(0.5)) { // dense enough for long ranges of vertices / signed edges / candidates
         Topo t; int n = (int) r.range(5, max_n); topo_er(r, t, n, std::min(1.0, (2.5 + 5 * r.real()) / n)); if (r.chance(0.7)) topo_tree(r, t, n); dedup(t);
         s.n = n; for (auto &e : t) s.edges.push_back({e.first, e.second, 1}); r.shuffle(s.edges); s.family = "er"; assign_weights(r, s, o, false);
